@@ -353,6 +353,175 @@ class GenA:
         ref = self.emit({"op": "p_bin", "f": f, "a": a, "b": b})
         self.prefixes.append((ref, mp))
 
+
+    # ------------------------------------------------ declarations with F1 faults
+    FAULTS = ["none", "none", "none", "dup_name", "dup_symbol", "space", "dup_both"]
+
+    def decl_names(self, fault, taken_names, taken_symbols):
+        """(name, symbol) for a declaration with the given validation fault."""
+        name = self.fresh_name()
+        symbol = name
+        if fault in ("dup_name", "dup_both") and taken_names:
+            name = self.rng.choice(taken_names)
+        if fault in ("dup_symbol", "dup_both") and taken_symbols:
+            symbol = self.rng.choice(taken_symbols)
+        if fault == "space":
+            symbol = symbol[:2] + " " + symbol[2:]
+        return name, symbol
+
+    def unit_taken(self):
+        return sorted(self.model.unit_names), sorted(s for s in self.model.unit_symbols if s)
+
+    def g_decl_unit(self):
+        fault = self.rng.choice(self.FAULTS)
+        dref, md = self.any_dim()
+        name, symbol = self.decl_names(fault, *self.unit_taken())
+        entry = self.rng.choice(["define_unit", "dim_unit", "dim_unit"])
+        op = {"op": entry, "dim": dref, "name": name, "symbol": symbol}
+        if fault != "none":
+            op["fault"] = fault
+            self.emit(op)
+            return
+        ref = self.emit(op)
+        self.units.append((ref, self.model.define_unit(name, symbol, md)))
+
+    def _fresh_compound(self):
+        """A compound that has (model-wise) no name yet; built before naming with
+        probability 1/2 so that anonymous-then-named orders are covered."""
+        for _ in range(5):
+            (a, ma), (b, mb) = self.leaf_unit(), self.leaf_unit()
+            n = self.rng.choice([2, 3, -1, -2, 4, 5])
+            nf = M.u_mul(ma, M.u_pow(mb, n))
+            if len(nf[1]) >= 1 and nf not in self.model.unit_names.values() and self.size_ok(nf):
+                r1 = self.emit({"op": "u_pow", "a": b, "n": n})
+                r2 = self.emit({"op": "u_mul", "a": a, "b": r1})
+                self.units.append((r2, nf))
+                return r2, nf
+        return None, None
+
+    def g_decl_derive(self):
+        fault = self.rng.choice(self.FAULTS)
+        cands = [x for x in self.units if x[1] not in self.model.unit_names.values() and len(x[1][1]) >= 1]
+        if cands and self.rng.random() < 0.5:
+            ref, nf = self.rng.choice(cands)
+        else:
+            ref, nf = self._fresh_compound()
+            if ref is None:
+                return
+        name, symbol = self.decl_names(fault, *self.unit_taken())
+        op = {"op": "derive", "unit": ref, "name": name, "symbol": symbol}
+        if fault != "none":
+            op["fault"] = fault
+            self.emit(op)
+            return
+        r = self.emit(op)
+        self.model.name_unit(nf, name, symbol)
+        self.units.append((r, nf))
+
+    def g_decl_alias(self):
+        fault = self.rng.choice(self.FAULTS)
+        if self.rng.random() < 0.5:
+            ref, nf = self.leaf_unit()          # an already named (possibly aliased) unit
+        else:
+            ref, nf = self.any_unit()
+        names, symbols = self.unit_taken()
+        # never "duplicate" with the unit's own names: that is legal re-aliasing
+        names = [n for n in names if self.model.unit_names[n] != nf]
+        symbols = [x for x in symbols if self.model.unit_symbols[x] != nf]
+        name, symbol = self.decl_names(fault, names, symbols)
+        which = self.rng.choice(["both", "both", "name", "symbol"])
+        op = {"op": "alias", "unit": ref}
+        if which in ("both", "name") and fault not in ("dup_symbol", "space") or which == "both":
+            op["name"] = name
+        if which in ("both", "symbol") or fault in ("dup_symbol", "space", "dup_both"):
+            op["symbol"] = symbol
+        if fault == "dup_name":
+            op["name"] = name
+        if fault != "none":
+            op["fault"] = fault
+            self.emit(op)
+            return
+        r = self.emit(op)
+        self.model.name_unit(nf, op.get("name"), op.get("symbol"))
+        self.units.append((r, nf))
+
+    def g_decl_prefix(self):
+        rng = self.rng
+        fault = rng.choice(["none", "none", "none", "dup_name", "dup_symbol", "dup_both"])
+        base = rng.choice([10, 10, 2, 3, 7])
+        exp = rng.choice([31, 33, 35, 37, -31, -33, 41, 43, -41, 45, 47, -47, 51, 53])
+        mp = M.p_norm([(base, exp)])
+        if mp in self.model.prefix_names.values():
+            return
+        if rng.random() < 0.5:
+            # the structure exists anonymously before it is named
+            how = rng.random()
+            if how < 0.5 or base not in (10, 2):
+                r0 = self.emit({"op": "prefix_new", "base": base, "exp": exp})
+            else:
+                r0 = self.emit({"op": "prefix_new", "base": base, "exp": exp - 1})
+                r1 = self.emit({"op": "prefix_new", "base": base, "exp": 1})
+                r0 = self.emit({"op": "p_bin", "f": "*", "a": r0, "b": r1})
+            self.prefixes.append((r0, mp))
+        names = sorted(self.model.prefix_names)
+        symbols = sorted(x for x in self.model.prefix_symbols if x)
+        name, symbol = self.decl_names(fault, names, symbols)
+        op = {"op": "prefix_new", "base": base, "exp": exp, "name": name, "symbol": symbol}
+        if fault != "none":
+            op["fault"] = fault
+            self.emit(op)
+            return
+        r = self.emit(op)
+        self.model.prefix_names[name] = mp
+        self.model.prefix_symbols[symbol] = mp
+        self.prefixes.append((r, mp))
+
+    def g_decl_dim(self):
+        rng = self.rng
+        fault = rng.choice(["none", "none", "dup_name"])
+        (a, ma), (b, mb) = self.any_dim(), self.any_dim()
+        n = rng.choice([3, 4, 5, -3, -4])
+        md = M.d_mul(M.d_pow(ma, n), mb)
+        if md in self.model.dims.values() or sum(abs(x) for x in md) > 14:
+            return
+        r1 = self.emit({"op": "d_pow", "a": a, "n": n})
+        if rng.random() < 0.5:
+            r2 = self.emit({"op": "d_bin", "f": "*", "a": r1, "b": b})
+        else:
+            r2 = self.emit({"op": "d_bin", "f": "*", "a": b, "b": r1})
+        name = self.fresh_name()
+        if fault == "dup_name":
+            name = rng.choice(sorted(self.model.dims))
+        op = {"op": "dim_derive", "dim": r2, "name": name}
+        if rng.random() < 0.5:
+            op["symbol"] = name.upper()[:3]
+        if fault != "none":
+            op["fault"] = fault
+            self.emit(op)
+            return
+        r = self.emit(op)
+        self.model.dims[name] = md
+        self.dims.append((r, md))
+
+    def g_decl_scale(self):
+        rng = self.rng
+        fault = rng.choice(["none", "none", "dup_name", "dup_symbol", "space"])
+        u, mu = self.any_unit(True)
+        zero = self.emit({"op": "q_new", "m": ["float", "273.15"], "u": u, "how": "mul"})
+        self.qtys.append((zero, mu))
+        md = self.model.dim_of(mu)
+        dims = [n for n, d in self.model.dims.items() if d == md]
+        if not dims:
+            return
+        name, symbol = self.decl_names(fault, *self.unit_taken())
+        op = {"op": "scale", "dim": ["d", sorted(dims)[0]], "zero": zero, "name": name, "symbol": symbol}
+        if fault != "none":
+            op["fault"] = fault
+            self.emit(op)
+            return
+        r = self.emit(op)
+        self.units.append((r, self.model.define_unit(name, symbol, md)))
+
     # --------------------------------------------------------- assembly
     WEIGHTS = {
         "C01": {
@@ -361,6 +530,12 @@ class GenA:
             "q_new": 5, "q_bin": 5, "q_unit": 3, "q_pow": 2, "q_root": 2, "quantify": 3,
             "unprefixed": 2, "q_unit_of": 2, "convert": 5, "cmp": 3, "roundtrip": 4,
             "evict": 4, "import": 1, "d_ops": 2, "p_ops": 2,
+        },
+        "C19": {
+            "decl_unit": 10, "decl_derive": 10, "decl_alias": 10, "decl_prefix": 8, "decl_dim": 5,
+            "decl_scale": 3, "u_mul": 6, "u_pow": 3, "p_mul_u": 3, "p_ops": 3, "d_ops": 3,
+            "render": 3, "parse": 2, "q_new": 2, "convert": 2, "roundtrip": 3, "evict": 1, "import": 2,
+            "as_ratio": 2,
         },
     }
 
